@@ -64,6 +64,28 @@ let handle (line : string) : string =
         else let (fs, fe) = flags which in adjust fs fe n o (sorted_counts n (events c)) in
       String.concat " ; " (List.map (fun l -> String.concat " " (List.map show_entry l)) tab) ^ " # " ^
       String.concat " " (List.map show_stat stats)
+  | "ADJF" :: order :: thr :: pruned :: vocab :: rest ->
+      (* the component case of harness/drivers/c05_adjust_driver.cc: AdjustCounts on given sorted padded n-grams *)
+      let n = nat_of_int (int_of_string ("0x" ^ order)) in
+      let thr_l = List.map n_of_hex (split ',' thr) in
+      let vocab_n = int_of_string ("0x" ^ vocab) in
+      let limit = if pruned = "-" then None else
+          (let pr = List.map n_of_hex (split ',' pruned) in
+           let rec ids i = if i >= vocab_n then [] else (let x = n_of_hex (Printf.sprintf "%x" i) in if List.mem x pr then ids (i + 1) else x :: ids (i + 1)) in
+           Some (ids 0)) in
+      let o = { o_prune = (match parse_pruning thr_l n with Some l -> l | None -> raise Reject); o_limit = limit; o_interp_uni = true;
+                o_fallback = Some ((q_of_string "1/2", q_of_string "1/1"), q_of_string "3/2") } in
+      let fulls = List.map (fun item -> match String.split_on_char '=' item with
+          | [g; c] -> (List.rev (List.map n_of_hex (split '.' g)), n_of_hex c) | _ -> failwith "full") rest in
+      let (tab, stats) = adjust true true n o fulls in
+      let show_nat e = String.concat "." (List.map hex_of_n (List.rev e.e_gram)) ^ "=" ^ hex_of_n e.e_adj ^ "=" ^ (if e.e_marked then "1" else "0") in
+      let nn = int_of_nat n in
+      let streams = List.mapi (fun i l -> let ls = List.map show_nat l in
+                                String.concat " " (if i = nn - 1 && nn > 1 then List.sort compare ls else ls)) tab in
+      String.concat " ; " streams ^ " #" ^ String.concat "" (List.map (fun s -> " " ^ hex_of_n s.s_count ^ "," ^ hex_of_n s.s_count_pruned) stats) ^
+      " #" ^ (match all_discounts o.o_fallback (nat_of_int 1) stats with
+              | Inl dl -> String.concat "" (List.map (fun ((a, b), c) -> " " ^ string_of_q a ^ ":" ^ string_of_q b ^ ":" ^ string_of_q c) dl)
+              | Inr _ -> " REFUSED")
   | "PRUNE" :: order :: p :: [] ->
       (match parse_pruning (if p = "-" then [] else List.map n_of_hex (split ',' p)) (nat_of_int (int_of_string order)) with
        | None -> "REJECT" | Some l -> String.concat "," (List.map hex_of_n l))
